@@ -42,6 +42,8 @@ architecture a19 of e19 is
   signal k1, k2, k3 : bit;
   signal kb : boolean;
   signal kn : natural;
+  attribute mark : natural;
+  attribute mark of k1 : signal is 0;
   function f2 (x : bit) return bit;
   function f2 (x : bit) return bit is
   begin
@@ -53,7 +55,12 @@ CATALOGUE = [
     ('s1', "  signal @s1 : bit;\n", [('conc', "  k1 <= s1;\n"), ('conc', "  s1 <= '1';\n"), ('conc', "  kb <= s1'event;\n"),
                                      ('conc', "  u1 : entity work.leaf19 port map (a => s1);\n"), ('seq', "    va := s1;\n"), ('conc', "  sp : process (s1)\n  begin\n  end process;\n")]),
     ('c1', "  constant @c1 : natural := 1;\n", [('conc', "  kn <= c1;\n"), ('conc', "  g1 : if c1 = 1 generate\n  begin\n  end generate;\n"), ('seq', "    if c1 = 0 then\n      null;\n    end if;\n"),
-                                                [('decl', "  signal vv : bit_vector(c1 downto 0);\n"), ('conc', "  vv <= (others => '0');\n")]]),
+                                                [('decl', "  signal vv : bit_vector(c1 downto 0);\n"), ('conc', "  vv <= (others => '0');\n")],
+                                                ('conc', "  cg : case c1 generate\n    when 0 =>\n      k3 <= '0';\n    when others =>\n      k3 <= '1';\n  end generate;\n"),
+                                                ('conc', "  fg : for gi in 0 to c1 generate\n  begin\n  end generate;\n"),
+                                                ('decl', "  attribute mark of keep_r : signal is c1;\n"), ('decl', "  attribute mark of all : signal is c1;\n"),
+                                                ('seq', "    while va = '1' and c1 = 0 loop\n      null;\n    end loop;\n"),
+                                                ('conc', "  u2 : entity work.leaf19 port map (a => k1) ;\n  kn <= natural'(c1);\n")]),
     ('t1', "  type @t1 is (e1, e2);\n", [('conc', "  kb <= t1'(e1) = e1;\n"), ('seq', "    if t1'pos(e1) = 0 then\n      null;\n    end if;\n")]),
     ('st1', "  subtype @st1 is natural range 0 to 3;\n", [('conc', "  kn <= st1'high;\n"), ('conc', "  blk : block\n    signal q : st1;\n  begin\n    q <= 0;\n  end block;\n")]),
     ('f1', "  function @f1 (x : bit) return bit is\n  begin\n    return x;\n  end function;\n", [('conc', "  k2 <= f1('0');\n"), ('seq', "    va := f1('1');\n")]),
